@@ -52,6 +52,45 @@ def i8_edge_cases(rng, n):
     return L
 
 
+def name_exponents(name):
+    """(mm, s) stated by a unit constant's name — the grammar of the module documentation of constants.rs (the same structural reading as
+    `Rrtk.nameExponents` in lean/Rrtk/ConstNames.lean): DIMENSIONLESS | INVERSE_<items> | <items>_PER_<items> | <items>"""
+    def items(ts):
+        m = s = 0
+        i = 0
+        while i < len(ts):
+            k = 1
+            if i + 1 < len(ts) and ts[i + 1] in ("SQUARED", "CUBED"):
+                k = 2 if ts[i + 1] == "SQUARED" else 3
+            if ts[i] == "MILLIMETER": m += k
+            elif ts[i] == "SECOND": s += k
+            else: return None
+            i += 2 if k > 1 else 1
+        return (m, s)
+    toks = name.split("_")
+    if toks == ["DIMENSIONLESS"]:
+        return (0, 0)
+    if toks[0] == "INVERSE":
+        r = items(toks[1:])
+        return None if r is None else (-r[0], -r[1])
+    if "PER" in toks:
+        i = toks.index("PER")
+        n, d = items(toks[:i]), items(toks[i + 1:])
+        return None if n is None or d is None else (n[0] - d[0], n[1] - d[1])
+    return items(toks)
+
+
+def const_use_cases(rng):
+    """a dimensionally correct PROGRAM for every named constant: a quantity of the constant, added to a quantity of the unit the constant's
+    NAME states — must work in checked builds (C01: the constant has the exponents its name states; C19: checked = unchecked)"""
+    L = []
+    for n in CONST_NAMES or []:
+        e = name_exponents(n)
+        if e is not None:
+            L.append("q constadd %s %s" % (n, q(rand_f(rng), e[0], e[1])))
+    return L
+
+
 INT_BOUNDS = sorted(set(x for k in (7, 8, 15, 16, 24, 31, 32, 53, 62, 63) for d in (-1, 0, 1) for x in (2 ** k + d, -(2 ** k) + d)
                         if -(2 ** 63) <= x <= 2 ** 63 - 1))
 
@@ -127,6 +166,7 @@ def gen_C01(rng, tier):
         L.append("q abs Q:%s:1,0" % a)
     for n in CONST_NAMES or []:
         L.append("q const %s" % n)
+    L += const_use_cases(rng)
     for pd in "PVA":
         L.append("q pd2u %s" % pd)
         for _ in range(3):
@@ -155,7 +195,7 @@ def mk_out(rng, cat, t, ty="f"):
 
 
 def gen_C02(rng, tier):
-    L = []
+    L = ["st exp S@1@00000000 S@2@00000000"]       # the first power-function call of the process: 0^0 (see gen_C19)
     maxn = n_of(tier, 5, 8)
     for name in ["sum", "prod", "latest"]:
         for n in range(1, maxn + 1):
@@ -2043,10 +2083,13 @@ def gen_C19(rng, tier):
     programs of C01 (which must not panic / be rejected in the unchecked builds)"""
     global HARNESS_BIN
     n = n_of(tier, 600, 4000)
-    L = []
+    # the very FIRST power-function call of the process is 0^0 (= 1): state that a build keeps between calls (a cache, a lazily initialised
+    # table) starts out in its sentinel state exactly once per process, and a sentinel of all zeros collides with these arguments
+    L = ["st exp S@1@00000000 S@2@00000000"]
     L += subsample(rng, gen_C01(rng, "quick"), 4 * n)
     L += subsample(rng, gen_C18(rng, "quick"), 2 * n)
     L += i8_edge_cases(rng, 150)
+    L += const_use_cases(rng)
     L += subsample(rng, gen_C14(rng, "quick"), 2 * n)
     L += subsample(rng, gen_C03(rng, "quick"), n)
     L += subsample(rng, gen_C02(rng, "quick"), n)
